@@ -92,6 +92,12 @@ func (b *Buffer) setCheckStartOffset(offset int64) {
 func (b *Buffer) Cancel() error {
 	b.mu.Lock()
 	defer b.mu.Unlock()
+	if b.committed && b.commitErr == nil {
+		// The upload has already been committed (or a concurrent
+		// Commit is about to store the data it has checked):
+		// there's nothing left to cancel.
+		return nil
+	}
 	b.commitErr = fmt.Errorf("upload canceled")
 	return nil
 }
